@@ -276,8 +276,9 @@ ScalarsFor(dt) == IF dt = "bool" THEN {BA(TRUE), BA(FALSE)}
                   ELSE IF IsInt(dt) THEN {IA(2), IA(0)} \cup (IF dt = "u8" THEN {IA(3)} ELSE {IA(-3)})
                   ELSE {IA(2), IA(-3), FA(2), FA(0)}
 NZScalarsFor(dt) == {s \in ScalarsFor(dt) : s.v # 0}
-AlphasFor(dt) == IF dt = "bool" THEN {} ELSE IF IsInt(dt) THEN {IA(2)} \cup (IF dt = "u8" THEN {} ELSE {IA(-1)})
-                 ELSE {IA(2), FA(-1)}
+\* alpha = 0 is a legal value too: the result keeps the broadcast shape of both operands (and 0 * inf is nan for floats)
+AlphasFor(dt) == IF dt = "bool" THEN {} ELSE IF IsInt(dt) THEN {IA(2), IA(0)} \cup (IF dt = "u8" THEN {} ELSE {IA(-1)})
+                 ELSE {IA(2), FA(-1), IA(0)}
 \* second-operand pattern: divisors never zero, exponents / shift counts small and non-negative
 OtherPat(f) == IF f \in DivF THEN 3 ELSE IF f \in {"pow", "shl", "shr"} THEN 4 ELSE 2
 ModesFor(o) == IF o \in {"aten::div.Tensor_mode", "aten::div.Scalar_mode"}
